@@ -111,13 +111,14 @@ def witnesses(gs, which):
     return W
 
 
-def check_identities(rep, tier, which):
-    rule = "A." + which
+def check_identities(rep, tier, which, W=None, rule=None, minimum=None, desc=None):
+    rule = rule or ("A." + which)
     gs = [g for g in groups.catalogue("quick")] + [g for g in groups.catalogue("thorough") if g.key in ("B_commutative", "SE_3_3d")]
     if tier == "thorough":
         gs += [g for g in groups.catalogue("thorough") if g.key in ("SE_1_3d", "B_SE3d_SO2d_V3d_C1d", "B_nested")]
-    rep.rule(rule, "algebraic identity holds as an exact polynomial identity modulo the representation constraints, on every path", minimum={"C04": 5}.get(which, 20))
-    W = witnesses(gs, which)
+    rep.rule(rule, desc or "algebraic identity holds as an exact polynomial identity modulo the representation constraints, on every path",
+             minimum=minimum if minimum is not None else {"C04": 5}.get(which, 20))
+    W = W or witnesses(gs, which)
     facts = W.build()
     rep.cmds.append(fe.clangxx() + " " + " ".join(fe.IR_FLAGS))
     rep.unit("%d identity witnesses (two sides of each identity written to two output buffers)" % len(W.wits))
